@@ -8,7 +8,7 @@ from . import common, lib, den, equation_contracts, sector_contracts  # noqa
 from . import C04 as _c04  # noqa
 from . import C18 as _c18  # noqa
 
-P = Property('C08', 'proof',
+P = Property('C08', 'other',
              'Contracts on the real AST of the two places where declaration order could leak: FixedMarginBusiness.__init__ declares its labour demand at '
              'creation (so that a labour market generated earlier finds it), and Market._GenerateTermsLowLevel examines every sector of the zone list '
              'whatever its position (a sector is included iff it declares the demand variable when examined; nothing stops the scan early), over '
